@@ -6,9 +6,24 @@ package slug
 // comments only; it is compiled only with the "verif" build tag.
 
 //@ func (*Packer).validSymlink -> (ok, err)
+//@   pure
 //@   replay validSymlink: root=root, path=path, target=target, nallow=len(p.allowSymlinkTargets)
 //@   requires pre.p: p != nil
 //@   ensures C04.lexical.segment: ok && len(p.allowSymlinkTargets) == 0 ==>
 //@       segUnder(ite(isAbs(target), Clean(target), Join(Dir(ite(isAbs(path), path, Join(Abs(root), path))), target)), Abs(root))
 //@   ensures C04,C12.illegal: !ok ==> err != nil
 //@   guide g: isPlainAbs(root) && isPlainRel(path) && (isDotDotRel(target) || isPlainAbs(target))
+
+//@ func (*Packer).Unpack -> (err)
+//@   replay validSymlink: root=dst, path=header.Name, target=header.Linkname, nallow=len(p.allowSymlinkTargets)
+//@   guide g1: isPlainAbs(dst) && len(dst) <= 6 && isPlainAbs(header.Name) && len(header.Name) <= 6 && isDotDotRel(header.Linkname) && len(header.Linkname) <= 16
+//@   guide g2: isPlainAbs(dst) && len(dst) <= 6 && isPlainRel(header.Name) && len(header.Name) <= 6 && (isDotDotRel(header.Linkname) || isPlainAbs(header.Linkname)) && len(header.Linkname) <= 16
+//@   requires pre.p: p != nil
+//@   ghost $eof Bool = false
+//@   frame C01.frame: segUnder(Clean(_p), Clean(dst)) || Clean(_p) == Dir(Clean(dst))
+//@   slice-invariant directoriesExtracted C01.dirs: segUnder(Clean(_e.Path), Clean(dst))
+//@   at-call os.Symlink C04.guarded: len(p.allowSymlinkTargets) == 0 ==>
+//@       segUnder(ite(isAbs(a0), Clean(a0), Join(Dir(Abs(a1)), a0)), Abs(dst))
+//@   invariant loop1 C12.eof.inv1: !$eof
+//@   invariant loop2 C12.eof.inv2: $eof
+//@   ensures C12.eof: err == nil ==> $eof
